@@ -1,8 +1,8 @@
 (* Extraction of the executable model. ExtrOcamlBasic only: bool, option,
    unit, list, prod, sumbool map to OCaml's; nat, positive, N, Z stay
    inductive. *)
-From SF Require Import Proto SessionProto FrameProto TimerProto.
+From SF Require Import Proto SessionProto FrameProto TimerProto GenProto.
 Require Extraction.
 Require Import ExtrOcamlBasic.
 Extraction Language OCaml.
-Extraction "model.ml" run_codec run_session_line run_frame_line run_timer_line.
+Extraction "model.ml" run_codec run_session_line run_frame_line run_timer_line run_gen_line.
